@@ -81,7 +81,7 @@ func (g G) text(label, marker string, hard bool) string {
 }
 
 type worldOpts struct {
-	bigUserPct int // users with one very large multi-valued attribute
+	bigUserPct                    int // users with one very large multi-valued attribute
 	maxSPs, maxUsers, maxReplicas int
 	hardPct                       int // probability (per world) that strings are drawn from the hard alphabet
 	hardURLPct                    int // … that SP URLs / entity IDs carry query strings and metacharacters
